@@ -94,10 +94,14 @@ def run(ctx):
             if not sts:
                 classes[ty] = ("none", None, None)
                 continue
-            (b, bi, t) = sts[-1]
-            s = XSlice(F, b, through_calls=True).operand(t["args"][1])
-            state = s.has_call(STATE_READ) or any(x[0] == "field" and x[2] in ("entries", "index_end_pos") for x in s.sources)
-            classes[ty] = ("state" if state else "args", b, bi)
+            # EVERY cached-last_index store of the function is classified; one argument-derived store makes the impl "args"
+            kinds_ = []
+            for (b, bi, t) in sts:
+                s = XSlice(F, b, through_calls=True).operand(t["args"][1])
+                state = s.has_call(STATE_READ) or any(x[0] == "field" and x[2] in ("entries", "index_end_pos") for x in s.sources)
+                kinds_.append(("state" if state else "args", b, bi))
+            worst = [k for k in kinds_ if k[0] == "args"] or kinds_
+            classes[ty] = worst[-1]
         ctx.floor("C20-b", len(classes), 2, "LogStore::%s impls with a cached last_index update" % meth)
         kinds = set(c[0] for c in classes.values())
         for ty, (kind, b, bi) in sorted(classes.items()):
